@@ -131,6 +131,9 @@ def mechanism(draw, closed_loops=True, point_masses=True, conservative=False, ma
                           # attached at an eccentric point or at the centre of mass; force form or compliance form
                           "B2": draw(gen.vec3(-2, -0.7)) if draw(st.integers(0, 3)) else [0.0, 0.0, 0.0],
                           "compliance": draw(st.integers(0, 2)) == 0,
+                          # from a point of the inertial frame, or (chains of two or more bodies) from a material point of
+                          # the first body, to the last body
+                          "B1_body": draw(gen.vec3(-2, -0.7)) if (kind == "chain" and nb >= 2 and draw(st.booleans())) else None,
                           "d": 0.0 if conservative else draw(st.sampled_from([0.0, 0.0, 0.5]))}
     return spec
 
@@ -198,7 +201,10 @@ def build_mechanism(spec, t0=0.0, state=None, consistent=True, opts=None):
             system.add(Force(g * bs[i]["mass"], b, name=f"gravity{i}"))
         if "spring" in spec:
             sp = spec["spring"]
-            tpi = sysbuild.make_tpi({"B1": [0.0, 0.0, 1.5], "B2": sp["B2"], "name": "tpi"}, system.origin, bodies[-1])
+            if sp.get("B1_body") is not None and len(bodies) >= 2:
+                tpi = sysbuild.make_tpi({"B1": sp["B1_body"], "B2": sp["B2"], "name": "tpi"}, bodies[0], bodies[-1])
+            else:
+                tpi = sysbuild.make_tpi({"B1": [0.0, 0.0, 1.5], "B2": sp["B2"], "name": "tpi"}, system.origin, bodies[-1])
             system.add(tpi)
             es = {"type": "KelvinVoigt" if sp["d"] > 0 else "Spring", "k": sp["k"], "d": sp["d"], "l_ref": sp["l_ref"],
                   "compliance": bool(sp.get("compliance", False))}
